@@ -47,6 +47,8 @@ def source(case):
         return f"#[typeshare]\n{ra}pub struct Cont {{\n{fields}}}\n"
     er = case.get("enum_rule", "none")
     extra = f', rename_all = "{er}"' if er != "none" else ""
+    if case.get("enum_fields_rule", "none") != "none":
+        extra += ', rename_all_fields = "%s"' % case["enum_fields_rule"]
     vstacked = '    #[serde(alias = "V")]\n' if case["spelling"] in ("split", "extra") else ""
     va = f'{vstacked}    #[serde(rename_all = "{rule}")]\n' if rule != "none" else ""
     return (f'#[typeshare]\n#[serde(tag = "type", content = "content"{extra})]\npub enum Cont {{\n    Unit,\n{va}    Var {{\n{fields}    }},\n}}\n')
@@ -80,7 +82,7 @@ def rename_class(r):
 
 def signature(lang, case, kind, which="field"):
     return (f"C01/{lang}/{case['kind']}/{ident_class(case['ident'])}/{rename_class(case['rename'])}/{case['rule']}/"
-            f"{'enum-rule' if case.get('enum_rule', 'none') != 'none' else 'no-enum-rule'}/{which}/{kind}")
+            f"{'enum-rule' if case.get('enum_rule', 'none') != 'none' else 'fields-rule' if case.get('enum_fields_rule', 'none') != 'none' else 'no-enum-rule'}/{which}/{kind}")
 
 
 def judge_obs(chk, lang, case, members, expected_keys, prefix=""):
@@ -126,7 +128,8 @@ def run_cases(chk, cases, prefix_cfgs):
                 if ms and len(ms) == 2:
                     ident = case["ident"][2:] if case["ident"].startswith("r#") else case["ident"]
                     for m, (idt, ren) in zip(ms, ((ident, case["rename"]), ("plain_one", "none"))):
-                        events.append({"lang": lang0, "ident": list(idt), "rename": [] if ren in ("none", None) else list(ren), "rule": case["rule"], "key": list(m["key"])})
+                        events.append({"lang": lang0, "ident": list(idt), "rename": [] if ren in ("none", None) else list(ren), "rule": case["rule"], "key": list(m["key"]),
+                                       "kind": case["kind"], "fields_rule": case.get("enum_fields_rule", "none") if case["kind"] == "variant" else "none"})
                         meta.append((lang, case, prefix))
     return events, meta
 
@@ -172,7 +175,8 @@ def run(chk):
         if rng.random() < 0.4:
             ren = rng.choice("abcxyzABC_") + "".join(rng.choice(alpha) for _ in range(rng.randint(0, 8)))
         rcases.append(({"kind": rng.choice(["struct", "variant"]), "ident": w, "rename": ren, "rule": rule,
-                        "enum_rule": rng.choice(["none", "none", "UPPERCASE", "kebab-case"]), "spelling": rng.choice(["merged", "split", "reversed", "extra"])}, None))
+                        "enum_rule": rng.choice(["none", "none", "UPPERCASE", "kebab-case"]), "spelling": rng.choice(["merged", "split", "reversed", "extra"]),
+                        "enum_fields_rule": rng.choice(["none", "none", "none", "camelCase", "PascalCase", "UPPERCASE"])}, None))
     silent = common.Check(chk.pid, chk.tier, chk.seed)
     events, meta = run_cases(silent, rcases, prefix_cfgs[:1])
     nbad = 0
